@@ -202,3 +202,61 @@ func c17Inventory(repo string) ([]string, error) {
 	}
 	return out, nil
 }
+
+// c17ReleaseInventory lists every call X.Release() (no arguments) in the non-test code of
+// the whole module, with file, enclosing function and whether it is deferred: who gives a
+// garbling's scratch back, and when, is part of the ownership protocol the model describes.
+func c17ReleaseInventory(repo string) ([]string, error) {
+	var inv []string
+	err := filepath.Walk(repo, func(path string, info os.FileInfo, err error) error {
+		if err != nil {
+			return nil
+		}
+		name := info.Name()
+		if info.IsDir() {
+			if path != repo && (strings.HasPrefix(name, ".") || name == "testdata" || name == "vendor") {
+				return filepath.SkipDir
+			}
+			return nil
+		}
+		if !strings.HasSuffix(name, ".go") || strings.HasSuffix(name, "_test.go") || strings.HasPrefix(name, "verif_") {
+			return nil
+		}
+		fset := token.NewFileSet()
+		f, perr := parser.ParseFile(fset, path, nil, 0)
+		if perr != nil {
+			return nil
+		}
+		rel, _ := filepath.Rel(repo, path)
+		for _, d := range f.Decls {
+			fd, ok := d.(*ast.FuncDecl)
+			if !ok || fd.Body == nil {
+				continue
+			}
+			deferred := map[*ast.CallExpr]bool{}
+			ast.Inspect(fd.Body, func(nd ast.Node) bool {
+				if ds, ok := nd.(*ast.DeferStmt); ok {
+					deferred[ds.Call] = true
+				}
+				return true
+			})
+			ast.Inspect(fd.Body, func(nd ast.Node) bool {
+				ce, ok := nd.(*ast.CallExpr)
+				if !ok || len(ce.Args) != 0 {
+					return true
+				}
+				if sel, ok := ce.Fun.(*ast.SelectorExpr); ok && sel.Sel.Name == "Release" {
+					kind := "call"
+					if deferred[ce] {
+						kind = "defer"
+					}
+					inv = append(inv, fmt.Sprintf("release:%s:%s:%s", filepath.ToSlash(rel), fd.Name.Name, kind))
+				}
+				return true
+			})
+		}
+		return nil
+	})
+	sort.Strings(inv)
+	return inv, err
+}
